@@ -209,6 +209,18 @@ _BUILTIN_TYPES = {"int": int, "float": float, "str": str, "bool": bool, "list": 
                   "tuple": tuple, "dict": dict, "set": set}
 
 
+GLOBAL_STATE: dict[str, dict[Any, Any]] = {"modconst": {}, "lru": {}}
+
+
+def reset_global_state() -> None:
+    """Forget module-level values and memoisation caches (a 'fresh interpreter process')."""
+    GLOBAL_STATE["modconst"].clear()
+    GLOBAL_STATE["lru"].clear()
+
+
+_CACHE_DECORATORS = ("lru_cache", "cache", "functools.lru_cache", "functools.cache", "cached_property")
+
+
 class Interp:
     """Evaluator of the formula fragment over abstract objects."""
 
@@ -223,7 +235,8 @@ class Interp:
         self.steps = 0
         self.native = dict(native or {})  # qualname -> python callable overriding a callee
         self._default_natives()
-        self._modconst: dict[tuple[str, str], Any] = {}
+        # module-level values live as long as the process: shared by all evaluators (reset_global_state)
+        self._modconst: dict[tuple[str, str], Any] = GLOBAL_STATE["modconst"]
         self.called: set[str] = set()
         self.sites: set[tuple[str, int, str]] = set()     # executed construction sites
         self.set_order = "asc"       # iteration order imposed on sets: 'asc' | 'desc' (see C12-DET)
@@ -292,6 +305,23 @@ class Interp:
         if fi.qual in self.native and not skip_native:
             return self.native[fi.qual](*args, **kwargs)
         self.called.add(fi.qual)
+        memo_key = None
+        if fi.node.decorator_list and any(ast.unparse(d).split("(")[0] in _CACHE_DECORATORS
+                                          for d in fi.node.decorator_list):
+            # functools caches are process-global and keyed by the arguments' own __hash__/__eq__
+            try:
+                memo_key = (fi.qual, self.hash_key(tuple(args)), tuple(sorted((k, self.hash_key(v)) for k, v in kwargs.items())))
+            except AbsRaise:
+                memo_key = None
+            if memo_key is not None and memo_key in GLOBAL_STATE["lru"]:
+                return GLOBAL_STATE["lru"][memo_key]
+        if memo_key is not None:
+            res = self._call_body(fi, args, kwargs)
+            GLOBAL_STATE["lru"][memo_key] = res
+            return res
+        return self._call_body(fi, args, kwargs)
+
+    def _call_body(self, fi: FuncInfo, args: list[Any], kwargs: dict[str, Any]) -> Any:
         if self.depth == 0:
             Interp.TOTAL_STEPS += self.steps
             self.steps = 0
@@ -690,15 +720,38 @@ class Interp:
                 return a // b
             if isinstance(op, ast.Div):
                 return a / b
+            if isinstance(op, ast.Pow):
+                if type(b).__name__ == "Poly":
+                    raise AnalysisError("ALG", f"symbolic exponent: {src(n)}")
+                if type(a).__name__ == "Poly":
+                    r: Any = 1
+                    for _ in range(int(b)):
+                        r = r * a
+                    return r
+                return a ** b
+            if isinstance(op, ast.BitOr):
+                return a | b
+            if isinstance(op, ast.BitAnd):
+                return a & b
+            if isinstance(op, ast.BitXor):
+                return a ^ b
+            if isinstance(op, ast.LShift):
+                return a << b
+            if isinstance(op, ast.RShift):
+                return a >> b
         except (TypeError, ZeroDivisionError) as exc:
             raise AbsRaise(f"{type(exc).__name__} at {src(n)}") from exc
         raise AnalysisError("ABSINT", f"binary operator outside fragment: {src(n)}")
 
     def compare(self, op: ast.cmpop, a: Any, b: Any, n: ast.AST) -> bool:
-        if isinstance(op, ast.Is):
-            return a is b or (a is None and b is None)
-        if isinstance(op, ast.IsNot):
-            return not (a is b or (a is None and b is None))
+        if isinstance(op, (ast.Is, ast.IsNot)):
+            if isinstance(a, EnumVal) and isinstance(b, EnumVal):
+                same = a == b                      # enum members are singletons
+            elif isinstance(a, ClassRef) and isinstance(b, ClassRef):
+                same = a.ci is b.ci
+            else:
+                same = a is b or (a is None and b is None)
+            return same if isinstance(op, ast.Is) else not same
         if isinstance(op, (ast.In, ast.NotIn)):
             if isinstance(b, str):
                 if not isinstance(a, str):
